@@ -855,6 +855,7 @@ theorem nextState_slot (s : State) (st : Step) (j : Nat) (w' : WPod) (h : (nextS
   cases st with
   | add d ps => exact ⟨w', h, rfl, rfl⟩
   | drain d => exact ⟨w', h, rfl, rfl⟩
+  | node src => exact ⟨w', h, rfl, rfl⟩
   | tick ns => exact ⟨w', h, rfl, rfl⟩
   | recon i ea da =>
     simp only [getElem?_modifyAt] at h
@@ -898,6 +899,28 @@ theorem mem_livePods (s : State) (p : Pod) (h : p ∈ livePods s) :
   refine ⟨i, w, ?_, by simpa using hw.2, hp⟩
   rw [List.getElem?_eq_getElem hi, hget]
 
+/-- what a drain pass adds to the queue are pods Karpenter may touch -/
+theorem touchable_drainStep (s : State) (d : Option Int) (hwf : WF s) (h : Touchable s) (k : Nat)
+    (hk : (qget (drainStep s d).items k).isSome = true) (w : WPod)
+    (hw : s.pods[k % s.pods.length]? = some w) : untouchable w.pod = false := by
+  simp only [drainStep] at hk
+  rw [qget_drain] at hk
+  by_cases hin : k ∈ (enqueued (livePods s) d s.now).map (·.uid)
+  · obtain ⟨p, hp, hpu⟩ := List.mem_map.mp hin
+    have hok := enqueued_ok (livePods s) d s.now p hp
+    obtain ⟨i, wi, hwi, _, hwp⟩ := mem_livePods s p hok.1
+    have hslot := hwf i wi hwi
+    rw [hwp, hpu] at hslot
+    rw [hslot, hwi] at hw
+    have : w = wi := by simpa using hw.symm
+    rw [this, hwp]
+    have := hok.2
+    unfold enqueueOK mustWait at this
+    simp only [Bool.and_eq_true, Bool.not_eq_true'] at this
+    exact this.1.1.2
+  · simp only [hin, if_false] at hk
+    exact h k hk w hw
+
 /-- keys of the queue after a step of a history without direct `Queue.Add`: old keys, or pods a drain pass
     admitted -/
 theorem touchable_next (s : State) (st : Step) (hwf : WF s) (h : Touchable s)
@@ -932,22 +955,58 @@ theorem touchable_next (s : State) (st : Step) (hwf : WF s) (h : Touchable s)
     exact h k hold w hw
   | drain d =>
     simp only [stepModel] at hk
-    rw [qget_drain] at hk
-    by_cases hin : k ∈ (enqueued (livePods s) d s.now).map (·.uid)
-    · obtain ⟨p, hp, hpu⟩ := List.mem_map.mp hin
-      have hok := enqueued_ok (livePods s) d s.now p hp
-      obtain ⟨i, wi, hwi, _, hwp⟩ := mem_livePods s p hok.1
-      have hslot := hwf i wi hwi
-      rw [hwp, hpu] at hslot
-      rw [hslot, hwi] at hw
-      have : w = wi := by simpa using hw.symm
-      rw [this, hwp]
-      have := hok.2
-      unfold enqueueOK mustWait at this
-      simp only [Bool.and_eq_true, Bool.not_eq_true'] at this
-      exact this.1.1.2
-    · simp only [hin, if_false] at hk
-      exact h k hk w hw
+    exact touchable_drainStep s d hwf h k hk w hw
+  | node src =>
+    simp only [stepModel] at hk
+    cases hT : nodeTerminationTime src with
+    | none => simp only [hT, refusedStep] at hk; exact h k hk w hw
+    | some d => simp only [hT] at hk; exact touchable_drainStep s d hwf h k hk w hw
+
+/-- a drain pass of the model meets the specification of a drain pass -/
+theorem drainStep_meets_spec (s : State) (d : Option Int) :
+    ((drainStep s d).r != "error") = true ∧
+    drainOK (livePods s) d s.now s.q (drainStep s d).items (drainStep s d).calls ((drainStep s d).r == "drained") = true := by
+  simp only [drainStep]
+  have hspec := drain_meets_spec s.q (livePods s) d s.now
+  cases hv : (drain s.q (livePods s) d s.now).2 with
+  | true =>
+    rw [hv] at hspec
+    have e1 : (("waiting" : String) != "error") = true := by decide
+    have e2 : (("waiting" : String) == "drained") = false := by decide
+    simp only [if_true, e1, e2, true_and]
+    simpa using hspec
+  | false =>
+    rw [hv] at hspec
+    have e1 : (("drained" : String) != "error") = true := by decide
+    have e2 : (("drained" : String) == "drained") = true := by decide
+    simp only [Bool.false_eq_true, if_false, e1, e2, true_and]
+    simpa using hspec
+
+/-- the model's `nodeTerminationTime` hands `Drain` exactly the deadline the specification knows, and refuses
+    exactly when the deadline is unreadable -/
+theorem nodeTerminationTime_spec (src : DeadlineSrc) :
+    (unreadable src = true ∧ nodeTerminationTime src = none) ∨
+    (unreadable src = false ∧ nodeTerminationTime src = some (knownDeadline src)) := by
+  cases src with
+  | noClaim => right; exact ⟨rfl, rfl⟩
+  | noAnnotation => right; exact ⟨rfl, rfl⟩
+  | annotation t =>
+    cases t with
+    | none => left; exact ⟨rfl, rfl⟩
+    | some t => right; exact ⟨rfl, rfl⟩
+
+/-- a controller-driven pass of the model meets the specification of such a pass -/
+theorem nodeStep_meets_spec (s : State) (src : DeadlineSrc) :
+    nodePassOK (livePods s) src s.now s.q (stepModel s (.node src)).items (stepModel s (.node src)).calls
+      (stepModel s (.node src)).r = true := by
+  unfold nodePassOK
+  rcases nodeTerminationTime_spec src with ⟨hu, hT⟩ | ⟨hu, hT⟩
+  · have e : (("error" : String) == "error") = true := by decide
+    simp only [stepModel, hT, hu, if_true, refusedStep, e]
+    exact idleOK_refl _
+  · have h := drainStep_meets_spec s (knownDeadline src)
+    simp only [stepModel, hT, hu, Bool.false_eq_true, if_false, Bool.and_eq_true]
+    exact h
 
 /-- one step of the model meets the specification of that step -/
 theorem step_meets_spec (strict : Bool) (s : State) (st : Step) (hwf : WF s) (ht : strict = true → Touchable s) :
@@ -957,21 +1016,10 @@ theorem step_meets_spec (strict : Bool) (s : State) (st : Step) (hwf : WF s) (ht
   | tick ns => exact idleOK_refl _
   | change i m => exact idleOK_refl _
   | drain d =>
-    simp only [stepOK, stepModel]
-    have hspec := drain_meets_spec s.q (livePods s) d s.now
-    cases hv : (drain s.q (livePods s) d s.now).2 with
-    | true =>
-      rw [hv] at hspec
-      have e1 : (("waiting" : String) != "error") = true := by decide
-      have e2 : (("waiting" : String) == "drained") = false := by decide
-      simp only [if_true, e1, e2, Bool.true_and]
-      simpa using hspec
-    | false =>
-      rw [hv] at hspec
-      have e1 : (("drained" : String) != "error") = true := by decide
-      have e2 : (("drained" : String) == "drained") = true := by decide
-      simp only [Bool.false_eq_true, if_false, e1, e2, Bool.true_and]
-      simpa using hspec
+    have h := drainStep_meets_spec s d
+    simp only [stepOK, stepModel, Bool.and_eq_true]
+    exact h
+  | node src => exact nodeStep_meets_spec s src
   | recon i ea da =>
     simp only [stepOK, stepModel]
     cases hp : s.pods[i]? with
@@ -1017,6 +1065,7 @@ theorem history_meets_spec (strict : Bool) : ∀ (steps : List Step) (s : State)
     cases st with
     | add d ps => exact absurd rfl (hne d ps)
     | drain d => simpa [noAdd] using hna
+    | node src => simpa [noAdd] using hna
     | recon i ea da => simpa [noAdd] using hna
     | tick ns => simpa [noAdd] using hna
     | change i m => simpa [noAdd] using hna
@@ -1056,6 +1105,16 @@ theorem touchable_init (now : Int) (ps : List Pod) : Touchable (initState now ps
 
 /-! ### stored deadlines along a history -/
 
+theorem drainStep_monotone (s : State) (d : Option Int) (k : Nat) (e e' : Option Int)
+    (h : qget s.q k = some e) (h' : qget (drainStep s d).items k = some e') : dle e' e = true := by
+  simp only [drainStep] at h'
+  rw [qget_drain, h] at h'
+  by_cases hin : k ∈ (enqueued (livePods s) d s.now).map (·.uid)
+  · simp only [hin, if_true, Option.getD_some, Option.some.injEq] at h'
+    rw [← h']; exact dle_dmin_left _ _
+  · simp only [hin, if_false, Option.some.injEq] at h'
+    rw [← h']; exact dle_refl _
+
 /-- one step never loosens the deadline of a pod that stays queued -/
 theorem step_monotone (s : State) (st : Step) (k : Nat) (e e' : Option Int)
     (h : qget s.q k = some e) (h' : qget (nextState s st).q k = some e') : dle e' e = true := by
@@ -1071,12 +1130,14 @@ theorem step_monotone (s : State) (st : Step) (k : Nat) (e e' : Option Int)
       rw [← h']; exact dle_refl _
   | drain d =>
     simp only [stepModel] at h'
-    rw [qget_drain, h] at h'
-    by_cases hin : k ∈ (enqueued (livePods s) d s.now).map (·.uid)
-    · simp only [hin, if_true, Option.getD_some, Option.some.injEq] at h'
-      rw [← h']; exact dle_dmin_left _ _
-    · simp only [hin, if_false, Option.some.injEq] at h'
-      rw [← h']; exact dle_refl _
+    exact drainStep_monotone s d k e e' h h'
+  | node src =>
+    simp only [stepModel] at h'
+    cases hT : nodeTerminationTime src with
+    | none =>
+      simp only [hT, refusedStep] at h'
+      rw [h] at h'; simp only [Option.some.injEq] at h'; rw [← h']; exact dle_refl _
+    | some d => simp only [hT] at h'; exact drainStep_monotone s d k e e' h h'
   | tick ns =>
     simp only [stepModel] at h'
     rw [h] at h'; simp only [Option.some.injEq] at h'; rw [← h']; exact dle_refl _
@@ -1137,10 +1198,20 @@ theorem queuedThroughout_head (k : Nat) (steps : List Step) (s : State)
   | nil => simpa [queuedThroughout] using h
   | cons st rest => simp only [queuedThroughout, Bool.and_eq_true] at h; exact h.1
 
-/-- a key that appears in the queue during a step (other than a direct add) was enqueued by a drain pass -/
+theorem new_key_drainStep (s : State) (d : Option Int) (k : Nat)
+    (hold : (qget s.q k).isSome = false) (hnew : (qget (drainStep s d).items k).isSome = true) :
+    k ∈ (enqueued (livePods s) d s.now).map (·.uid) := by
+  simp only [drainStep] at hnew
+  rw [qget_drain] at hnew
+  by_cases hin : k ∈ (enqueued (livePods s) d s.now).map (·.uid)
+  · exact hin
+  · simp only [hin, if_false] at hnew; rw [hnew] at hold; simp at hold
+
+/-- a key that appears in the queue during a step (other than a direct add) was enqueued by a drain pass
+    (a direct one, or one of the termination controller that determined the deadline `d`) -/
 theorem new_key_from_drain (s : State) (st : Step) (k : Nat) (hst : ∀ d ps, st ≠ .add d ps)
     (hold : qhas s.q k = false) (hnew : qhas (nextState s st).q k = true) :
-    ∃ d, st = .drain d ∧ k ∈ (enqueued (livePods s) d s.now).map (·.uid) := by
+    ∃ d, passDeadline st = some d ∧ k ∈ (enqueued (livePods s) d s.now).map (·.uid) := by
   unfold qhas at hold hnew
   rw [nextState_q] at hnew
   cases st with
@@ -1148,12 +1219,15 @@ theorem new_key_from_drain (s : State) (st : Step) (k : Nat) (hst : ∀ d ps, st
   | tick ns => simp only [stepModel] at hnew; rw [hnew] at hold; simp at hold
   | change i m => simp only [stepModel] at hnew; rw [hnew] at hold; simp at hold
   | drain d =>
-    refine ⟨d, rfl, ?_⟩
     simp only [stepModel] at hnew
-    rw [qget_drain] at hnew
-    by_cases hin : k ∈ (enqueued (livePods s) d s.now).map (·.uid)
-    · exact hin
-    · simp only [hin, if_false] at hnew; rw [hnew] at hold; simp at hold
+    exact ⟨d, rfl, new_key_drainStep s d k hold hnew⟩
+  | node src =>
+    simp only [stepModel] at hnew
+    cases hT : nodeTerminationTime src with
+    | none => simp only [hT, refusedStep] at hnew; rw [hnew] at hold; simp at hold
+    | some d =>
+      simp only [hT] at hnew
+      exact ⟨d, by simp [passDeadline, hT], new_key_drainStep s d k hold hnew⟩
   | recon i ea da =>
     exfalso
     simp only [stepModel] at hnew
@@ -1176,9 +1250,9 @@ theorem new_key_from_drain (s : State) (st : Step) (k : Nat) (hst : ∀ d ps, st
 theorem queued_from (k : Nat) : ∀ (steps : List Step) (s : State), noAdd steps = true →
     qhas (runState s steps).q k = true →
     queuedThroughout k s steps = true ∨
-    ∃ pre d post, steps = pre ++ Step.drain d :: post ∧
+    ∃ pre st d post, steps = pre ++ st :: post ∧ passDeadline st = some d ∧
       k ∈ (enqueued (livePods (runState s pre)) d (runState s pre).now).map (·.uid) ∧
-      queuedThroughout k (nextState (runState s pre) (.drain d)) post = true := by
+      queuedThroughout k (nextState (runState s pre) st) post = true := by
   intro steps
   induction steps with
   | nil => intro s _ h; left; simpa [queuedThroughout, runState] using h
@@ -1190,30 +1264,130 @@ theorem queued_from (k : Nat) : ∀ (steps : List Step) (s : State), noAdd steps
       cases st with
       | add d ps => exact absurd rfl (hne d ps)
       | drain d => simpa [noAdd] using hna
+      | node src => simpa [noAdd] using hna
       | recon i ea da => simpa [noAdd] using hna
       | tick ns => simpa [noAdd] using hna
       | change i m => simpa [noAdd] using hna
     simp only [runState] at h
-    rcases ih (nextState s st) hna' h with hthr | ⟨pre, d, post, hsteps, hin, hthr⟩
+    rcases ih (nextState s st) hna' h with hthr | ⟨pre, st', d, post, hsteps, hpd, hin, hthr⟩
     · by_cases hold : qhas s.q k = true
       · left; simp [queuedThroughout, hold, hthr]
       · right
         have hold' : qhas s.q k = false := by simpa using hold
         obtain ⟨d, hd, hin⟩ := new_key_from_drain s st k hne hold' (queuedThroughout_head k rest _ hthr)
-        refine ⟨[], d, rest, by rw [hd]; rfl, by simpa [runState] using hin, ?_⟩
-        simp only [runState]; rw [← hd]; exact hthr
+        exact ⟨[], st, d, rest, rfl, hd, by simpa [runState] using hin, by simpa [runState] using hthr⟩
     · right
-      exact ⟨st :: pre, d, post, by rw [hsteps]; rfl, by simpa [runState] using hin, by simpa [runState] using hthr⟩
+      exact ⟨st :: pre, st', d, post, by rw [hsteps]; rfl, hpd, by simpa [runState] using hin,
+        by simpa [runState] using hthr⟩
 
 /-- … in particular, starting from an empty queue, every queued pod traces back to an admitting drain pass -/
 theorem queued_was_admitted (k : Nat) (steps : List Step) (s0 : State) (hna : noAdd steps = true) (hq : s0.q = [])
     (h : qhas (runState s0 steps).q k = true) :
-    ∃ pre d post, steps = pre ++ Step.drain d :: post ∧
+    ∃ pre st d post, steps = pre ++ st :: post ∧ passDeadline st = some d ∧
       k ∈ (enqueued (livePods (runState s0 pre)) d (runState s0 pre).now).map (·.uid) ∧
-      queuedThroughout k (nextState (runState s0 pre) (.drain d)) post = true := by
+      queuedThroughout k (nextState (runState s0 pre) st) post = true := by
   rcases queued_from k steps s0 hna h with hthr | hex
   · have := queuedThroughout_head k steps s0 hthr
     simp [qhas, hq, qget_nil] at this
   · exact hex
+
+/-! ### every stored deadline was supplied by a step of the history -/
+
+/-- the deadline a step hands to `Queue.Add`, if it enqueues at all: a direct add's, a drain pass's, or the one
+    the termination controller read off the NodeClaim (nothing when it could not read one) -/
+def stepDeadline : Step → Option (Option Int)
+  | .add d _ => some d
+  | st => passDeadline st
+
+theorem dmin_getD_origin (prev : Option (Option Int)) (D e : Option Int)
+    (h : dmin (prev.getD none) D = e) : prev = some e ∨ D = e := by
+  cases prev with
+  | none =>
+    right
+    simp only [Option.getD_none] at h
+    cases D with
+    | none => simpa [dmin, dle] using h
+    | some d => simpa [dmin, dle] using h
+  | some p =>
+    simp only [Option.getD_some] at h
+    rcases dmin_eq_or p D with h1 | h1
+    · left; rw [← h, h1]
+    · right; rw [← h, h1]
+
+theorem drainStep_origin (s : State) (d : Option Int) (k : Nat) (e : Option Int)
+    (h : qget (drainStep s d).items k = some e) : qget s.q k = some e ∨ d = e := by
+  simp only [drainStep] at h
+  rw [qget_drain] at h
+  by_cases hin : k ∈ (enqueued (livePods s) d s.now).map (·.uid)
+  · simp only [hin, if_true, Option.some.injEq] at h
+    exact dmin_getD_origin _ _ _ h
+  · simp only [hin, if_false] at h; left; exact h
+
+/-- the deadline a pod is stored under after a step is the one it was stored under before, or the one this step
+    supplied -/
+theorem step_deadline_origin (s : State) (st : Step) (k : Nat) (e : Option Int)
+    (h : qget (nextState s st).q k = some e) : qget s.q k = some e ∨ stepDeadline st = some e := by
+  rw [nextState_q] at h
+  cases st with
+  | add d ps =>
+    simp only [stepModel] at h
+    rw [qget_qaddAll] at h
+    by_cases hin : k ∈ liveUids s ps
+    · simp only [hin, if_true, Option.some.injEq] at h
+      rcases dmin_getD_origin _ _ _ h with h1 | h1
+      · left; exact h1
+      · right; simp [stepDeadline, h1]
+    · simp only [hin, if_false] at h; left; exact h
+  | drain d =>
+    simp only [stepModel] at h
+    rcases drainStep_origin s d k e h with h1 | h1
+    · left; exact h1
+    · right; simp [stepDeadline, passDeadline, h1]
+  | node src =>
+    simp only [stepModel] at h
+    cases hT : nodeTerminationTime src with
+    | none => simp only [hT, refusedStep] at h; left; exact h
+    | some d =>
+      simp only [hT] at h
+      rcases drainStep_origin s d k e h with h1 | h1
+      · left; exact h1
+      · right; simp [stepDeadline, passDeadline, hT, h1]
+  | tick ns => simp only [stepModel] at h; left; exact h
+  | change i m => simp only [stepModel] at h; left; exact h
+  | recon i ea da =>
+    left
+    simp only [stepModel] at h
+    cases hp : s.pods[i]? with
+    | none => simpa [hp] using h
+    | some w =>
+      simp only [hp] at h
+      by_cases hg : w.gone = true
+      · simpa [hg] using h
+      · simp only [hg, Bool.false_eq_true, if_false] at h
+        rcases reconcile_items s.q w.pod s.now ea da with e1 | e1
+        · rw [e1] at h; exact h
+        · rw [e1, qget_qerase] at h
+          by_cases hk : k = w.pod.uid
+          · simp [hk] at h
+          · simpa [hk] using h
+
+/-- along every history: a stored deadline was there from the start or was supplied by one of the steps -/
+theorem history_deadline_origin (k : Nat) (e : Option Int) : ∀ (steps : List Step) (s : State),
+    qget (runState s steps).q k = some e → qget s.q k = some e ∨ e ∈ steps.filterMap stepDeadline := by
+  intro steps
+  induction steps with
+  | nil => intro s h; left; simpa [runState] using h
+  | cons st rest ih =>
+    intro s h
+    simp only [runState] at h
+    rcases ih _ h with h1 | h1
+    · rcases step_deadline_origin s st k e h1 with h2 | h2
+      · left; exact h2
+      · right; simp [h2]
+    · right
+      rw [List.filterMap_cons]
+      cases stepDeadline st with
+      | none => exact h1
+      | some d => exact List.mem_cons_of_mem _ h1
 
 end Karp.Drain
